@@ -98,6 +98,7 @@ type pipe struct {
 	ledgerItems int
 	routing string
 	settled bool
+	obs     *sysObs // syscorr: taps that report every primitive event (nil for the monitor-only components)
 }
 
 func (p *pipe) ev(s string) {
@@ -172,6 +173,9 @@ func (p *pipe) sinkWait(w int, ids []int) string {
 	p.mu.Lock()
 	p.pending[w] = c
 	p.arrivals++
+	if p.obs != nil {
+		p.obs.arrived(w, ids)
+	}
 	p.mu.Unlock()
 	d := <-c.decide
 	p.mu.Lock()
@@ -189,7 +193,7 @@ func (p *pipe) fingerprint() string {
 	p.mu.Lock()
 	defer p.mu.Unlock()
 	q := 0
-	for _, c := range p.b.GetOutputChans() {
+	for _, c := range p.queues() {
 		q += len(c)
 	}
 	return fmt.Sprintf("%d/%d/%d/%d", p.arrivals, len(p.written), q, len(p.evs))
@@ -215,9 +219,19 @@ func (p *pipe) quiesce() {
 	}
 }
 
-func newPipe(w []string, rng *Rng) (*pipe, error) {
+func newPipe(w []string, rng *Rng) (*pipe, error) { return newPipeOpt(w, rng, nil) }
+
+// queues: the per-worker channels the transporters read from
+func (p *pipe) queues() []chan transport.Batch {
+	if p.obs != nil {
+		return p.obs.qs
+	}
+	return p.b.GetOutputChans()
+}
+
+func newPipeOpt(w []string, rng *Rng, obs *sysObs) (*pipe, error) {
 	// pipeline cfg <kind> <workers> <routing> <pmethod> <buckets> <wl 0|1> <listhex> <mem> <mode> <retries>
-	p := &pipe{rng: rng, pkeyIds: map[string]int{}, sinkDead: map[int]string{}, faultAt: -1}
+	p := &pipe{rng: rng, pkeyIds: map[string]int{}, sinkDead: map[int]string{}, faultAt: -1, obs: obs}
 	p.kind = w[2]
 	p.workers, _ = strconv.Atoi(w[3])
 	p.routing = w[4]
@@ -268,12 +282,18 @@ func newPipe(w []string, rng *Rng) (*pipe, error) {
 		bf = batch.NewGenericBatchFactory(n)
 	}
 	bsh := shutdown.ShutdownHandler{TerminateCtx: p.pc, CancelFunc: cancel}
-	p.b = batcher.NewBatcher(bsh, ma.OutputChan, p.seen, p.written, p.statsCh, 3600*1000, bf, p.workers, 2, 3600*1000, 64, mem, routing)
+	if obs == nil {
+		p.b = batcher.NewBatcher(bsh, ma.OutputChan, p.seen, p.written, p.statsCh, 3600*1000, bf, p.workers, 2, 3600*1000, 64, mem, routing)
+	} else {
+		// syscorr: the batcher's input, self-report, statistics and dispatch channels are tapped (see syscorr.go)
+		p.b = batcher.NewBatcher(bsh, obs.tapInput(p, ma.OutputChan), p.seen, obs.bw, obs.bstats, 3600*1000, bf, p.workers, 2, 3600*1000, 64, mem, routing)
+		obs.tapOutputs(p)
+	}
 	tr := progress.New(p.sh, p.seen, p.written, p.statsCh)
 	p.tracker = &tr
 	lg := logrus.New()
 	lg.SetOutput(io.Discard)
-	for i, ch := range p.b.GetOutputChans() {
+	for i, ch := range p.queues() {
 		var t transport.Transporter
 		rp := backoff.WithMaxRetries(&backoff.ZeroBackOff{}, uint64(retries))
 		switch kind[0] {
@@ -328,6 +348,9 @@ func (p *pipe) applyWritten(om *ordered_map.OrderedMap) {
 	if len(parts) > 0 {
 		p.ledgerTrace = append(p.ledgerTrace, "ledgermon written "+strings.Join(parts, ","))
 	}
+	if p.obs != nil {
+		p.obs.tracked(om)
+	}
 	if err := p.tracker.VerifUpdateWritten(om); err != nil {
 		p.failStop = true
 	}
@@ -373,8 +396,14 @@ func (p *pipe) emit() {
 	case v := <-p.tracker.OutputChan:
 		p.ledgerTrace = append(p.ledgerTrace, fmt.Sprintf("ledgermon emit %d", v))
 		p.ev(fmt.Sprintf("pipemon ack %d", v))
+		if p.obs != nil {
+			p.obs.emitted(fmt.Sprintf("some %d", v))
+		}
 	default:
 		p.ledgerTrace = append(p.ledgerTrace, "ledgermon emit none")
+		if p.obs != nil {
+			p.obs.emitted("none")
+		}
 	}
 }
 
@@ -490,7 +519,8 @@ func (p *pipe) tick() string {
 	}
 }
 
-func (p *pipe) gate(w int, decision string) string {
+// waitPending: the sink call of worker w that waits at its gate (nil: the worker holds nothing)
+func (p *pipe) waitPending(w int) *sinkCall {
 	var c *sinkCall
 	for i := 0; i < 500; i++ {
 		p.mu.Lock()
@@ -499,11 +529,16 @@ func (p *pipe) gate(w int, decision string) string {
 		if c != nil {
 			break
 		}
-		if i > 20 && len(p.b.GetOutputChans()[w]) == 0 {
+		if i > 20 && len(p.queues()[w]) == 0 {
 			break
 		}
 		time.Sleep(200 * time.Microsecond)
 	}
+	return c
+}
+
+func (p *pipe) gate(w int, decision string) string {
+	c := p.waitPending(w)
 	if c == nil {
 		return "nopending"
 	}
@@ -518,6 +553,9 @@ func (p *pipe) stop() {
 		go func() { time.Sleep(200 * time.Millisecond); defer func() { recover() }(); close(p.statsCh) }()
 	}()
 	p.sh.CancelFunc()
+	if p.obs != nil {
+		p.obs.drainTaps(p)
+	}
 	// release every parked party
 	for w := range p.pending {
 		p.mu.Lock()
@@ -617,6 +655,81 @@ func (p *pipe) pkeyOf(rel, txn string) string {
 	return ""
 }
 
+// feedPrep builds the WAL message of a `pipeline in <op> <relhex> <txn> <key> <lsn> <id> <size>` op and logs
+// what the monitors need to know about it
+func (p *pipe) feedPrep(w []string) *replication.WalMessage {
+	rel := unhexs(w[3])
+	txn, _ := strconv.Atoi(w[4])
+	key, _ := strconv.Atoi(w[5])
+	lsn, _ := strconv.ParseUint(w[6], 10, 64)
+	id, _ := strconv.Atoi(w[7])
+	size, _ := strconv.Atoi(w[8])
+	op := w[2]
+	pr := &parselogical.ParseResult{Operation: op, Relation: rel, Transaction: strconv.Itoa(txn),
+		Columns: map[string]parselogical.ColumnValue{}, OldColumns: map[string]parselogical.ColumnValue{}}
+	kindN := 0
+	passes := true
+	if op == "COMMIT" {
+		kindN = 1
+	} else if op != "BEGIN" {
+		kindN = 2
+		pr.Operation = "INSERT"
+		// the record is identified by a column value; pad to the requested size
+		pad := size - 160
+		if pad < 0 {
+			pad = 0
+		}
+		pr.Columns["id"] = parselogical.ColumnValue{Value: strconv.Itoa(id), Type: "integer"}
+		pr.Columns["pad"] = parselogical.ColumnValue{Value: strings.Repeat("x", pad), Type: "text", Quoted: true}
+		passes = p.passes(rel)
+	}
+	m := &replication.WalMessage{WalStart: lsn, Pr: pr, TimeBasedKey: kname(key)}
+	pr.Transaction = tname(txn)
+	p.ev(fmt.Sprintf("pipemon fed %d %d %d %d %s %d", kindN, id, key, lsn, map[bool]string{true: "1", false: "0"}[passes], p.pkeyId(p.pkeyOf(rel, tname(txn)))))
+	if kindN == 2 && passes {
+		p.expectSunk++ // accepted by the sink or dropped-and-counted
+	}
+	if kindN == 2 && passes && strings.HasPrefix(p.kind, "kinesis") && size > 1<<20 {
+		// the property's exception: dropped (and counted) as larger than the record limit
+		p.ev(fmt.Sprintf("pipemon dropped %d", id))
+		p.expectTooBig++
+	}
+	return m
+}
+
+// settleDone: the environment has nothing left to do (see `settle`)
+func (p *pipe) settleDone() bool {
+	p.mu.Lock()
+	defer p.mu.Unlock()
+	sunk := 0
+	lastAck, maxCommit := uint64(0), uint64(0)
+	for _, e := range p.evs {
+		f := strings.Fields(e)
+		switch f[1] {
+		case "sunk", "dropped":
+			sunk++
+		case "ack":
+			v, _ := strconv.ParseUint(f[2], 10, 64)
+			if v > lastAck {
+				lastAck = v
+			}
+		case "fed":
+			if f[2] == "1" {
+				v, _ := strconv.ParseUint(f[5], 10, 64)
+				if v > maxCommit {
+					maxCommit = v
+				}
+			}
+		}
+	}
+	for _, c := range p.pending {
+		if c != nil {
+			return false
+		}
+	}
+	return sunk >= p.expectSunk && lastAck >= maxCommit
+}
+
 func pipelineRun(c Case) ([]string, []string) {
 	lines, outs := []string{}, []string{}
 	var p *pipe
@@ -673,42 +786,7 @@ func pipelineRun(c Case) ([]string, []string) {
 				outs = append(outs, "terminating")
 				continue
 			}
-			rel := unhexs(w[3])
-			txn, _ := strconv.Atoi(w[4])
-			key, _ := strconv.Atoi(w[5])
-			lsn, _ := strconv.ParseUint(w[6], 10, 64)
-			id, _ := strconv.Atoi(w[7])
-			size, _ := strconv.Atoi(w[8])
-			op := w[2]
-			pr := &parselogical.ParseResult{Operation: op, Relation: rel, Transaction: strconv.Itoa(txn),
-				Columns: map[string]parselogical.ColumnValue{}, OldColumns: map[string]parselogical.ColumnValue{}}
-			kindN := 0
-			passes := true
-			if op == "COMMIT" {
-				kindN = 1
-			} else if op != "BEGIN" {
-				kindN = 2
-				pr.Operation = "INSERT"
-				// the record is identified by a column value; pad to the requested size
-				pad := size - 160
-				if pad < 0 {
-					pad = 0
-				}
-				pr.Columns["id"] = parselogical.ColumnValue{Value: strconv.Itoa(id), Type: "integer"}
-				pr.Columns["pad"] = parselogical.ColumnValue{Value: strings.Repeat("x", pad), Type: "text", Quoted: true}
-				passes = p.passes(rel)
-			}
-			m := &replication.WalMessage{WalStart: lsn, Pr: pr, TimeBasedKey: kname(key)}
-			pr.Transaction = tname(txn)
-			p.ev(fmt.Sprintf("pipemon fed %d %d %d %d %s %d", kindN, id, key, lsn, map[bool]string{true: "1", false: "0"}[passes], p.pkeyId(p.pkeyOf(rel, tname(txn)))))
-			if kindN == 2 && passes {
-				p.expectSunk++ // accepted by the sink or dropped-and-counted
-			}
-			if kindN == 2 && passes && strings.HasPrefix(p.kind, "kinesis") && size > 1<<20 {
-				// the property's exception: dropped (and counted) as larger than the record limit
-				p.ev(fmt.Sprintf("pipemon dropped %d", id))
-				p.expectTooBig++
-			}
+			m := p.feedPrep(w)
 			// drain stale filter decisions
 			for len(p.fdec) > 0 {
 				<-p.fdec
@@ -837,37 +915,7 @@ func pipelineRun(c Case) ([]string, []string) {
 			// accounted for at the sink, the ledger has emitted the last COMMIT and is empty. Waiting
 			// longer can never create an alarm, so the only other exit is a generous round cap (a
 			// genuinely stuck pipeline, e.g. finding F1, runs into it).
-			done := func() bool {
-				p.mu.Lock()
-				defer p.mu.Unlock()
-				sunk := 0
-				lastAck, maxCommit := uint64(0), uint64(0)
-				for _, e := range p.evs {
-					f := strings.Fields(e)
-					switch f[1] {
-					case "sunk", "dropped":
-						sunk++
-					case "ack":
-						v, _ := strconv.ParseUint(f[2], 10, 64)
-						if v > lastAck {
-							lastAck = v
-						}
-					case "fed":
-						if f[2] == "1" {
-							v, _ := strconv.ParseUint(f[5], 10, 64)
-							if v > maxCommit {
-								maxCommit = v
-							}
-						}
-					}
-				}
-				for _, c := range p.pending {
-					if c != nil {
-						return false
-					}
-				}
-				return sunk >= p.expectSunk && lastAck >= maxCommit
-			}
+			done := p.settleDone
 			idle := 0
 			for round := 0; round < 160; round++ {
 				progress := false
